@@ -37,6 +37,25 @@ pub enum ConnKind {
     H2,
     /// connects and sends nothing (the server is still waiting for the first byte)
     Silent,
+    /// TLS servers only: sends half a ClientHello, then nothing
+    TlsStall,
+    /// TLS servers only: completes the TLS handshake, then sends nothing
+    SilentAfterTls,
+}
+
+impl ConnKind {
+    /// the client has sent no protocol byte at all (whatever happened below HTTP)
+    fn silent(self) -> bool {
+        matches!(self, ConnKind::Silent | ConnKind::TlsStall | ConnKind::SilentAfterTls)
+    }
+    /// name used in violation signatures: the three silent kinds are one class
+    fn class(self) -> &'static str {
+        match self {
+            ConnKind::RawH1 => "RawH1",
+            ConnKind::H2 => "H2",
+            _ => "Silent",
+        }
+    }
 }
 
 #[derive(Clone, Debug, Serialize, Deserialize)]
@@ -53,6 +72,9 @@ pub struct ShutdownCase {
     pub conns: Vec<ConnPlan>,
     pub signal_at_ms: u64,
     pub io_faulty: bool,
+    /// the acceptor wraps connections in TLS (lazy handshake inside the connection task)
+    #[serde(default)]
+    pub tls: bool,
 }
 
 #[derive(Clone, Debug, Default)]
@@ -78,7 +100,23 @@ fn head_bytes(r: &ReqSpec) -> Vec<u8> {
     .into_bytes()
 }
 
-async fn read_response(io: &mut SimStream, id: u32, resp_len: usize) -> Result<(), String> {
+trait Io: tokio::io::AsyncRead + tokio::io::AsyncWrite + Unpin + Send {}
+impl<T: tokio::io::AsyncRead + tokio::io::AsyncWrite + Unpin + Send> Io for T {}
+
+/// Wrap a raw simulated stream in a TLS client session when the server under test speaks TLS.
+async fn client_io(io: SimStream, tls: bool) -> Result<Box<dyn Io>, String> {
+    if !tls {
+        return Ok(Box::new(io));
+    }
+    let c = tokio_rustls::TlsConnector::from(crate::tlsfix::client_config(&[]));
+    let name = rustls::pki_types::ServerName::try_from("sim.test").unwrap();
+    match c.connect(name, io).await {
+        Ok(s) => Ok(Box::new(s)),
+        Err(e) => Err(format!("tls: {}", e)),
+    }
+}
+
+async fn read_response(io: &mut Box<dyn Io>, id: u32, resp_len: usize) -> Result<(), String> {
     let mut buf: Vec<u8> = vec![];
     let mut tmp = [0u8; 4096];
     let head_end = loop {
@@ -115,8 +153,8 @@ async fn read_response(io: &mut SimStream, id: u32, resp_len: usize) -> Result<(
     Ok(())
 }
 
-async fn raw_h1_conn(net: Network, plan: ConnPlan, obs: Arc<Mutex<ConnObs>>, mode: Option<(IoMode, IoMode)>) {
-    let mut io = match net.raw_connect("http://srv.test", mode) {
+async fn raw_h1_conn(net: Network, plan: ConnPlan, obs: Arc<Mutex<ConnObs>>, mode: Option<(IoMode, IoMode)>, tls: bool) {
+    let io = match net.raw_connect("http://srv.test", mode) {
         Ok(io) => io,
         Err(_) => {
             obs.lock().refused = true;
@@ -124,6 +162,14 @@ async fn raw_h1_conn(net: Network, plan: ConnPlan, obs: Arc<Mutex<ConnObs>>, mod
         }
     };
     obs.lock().connected_ms = Some(net.now_ms());
+    let mut io = match client_io(io, tls).await {
+        Ok(io) => io,
+        Err(_) => {
+            // the server went away during the TLS handshake
+            obs.lock().closed_ms = Some(net.now_ms());
+            return;
+        }
+    };
     for r in &plan.reqs {
         if r.gap_ms > 0 {
             // idle keep-alive: the server may close the connection meanwhile
@@ -185,7 +231,7 @@ async fn raw_h1_conn(net: Network, plan: ConnPlan, obs: Arc<Mutex<ConnObs>>, mod
     obs.lock().closed_ms = Some(net.now_ms());
 }
 
-async fn h2_conn(net: Network, plan: ConnPlan, obs: Arc<Mutex<ConnObs>>, mode: Option<(IoMode, IoMode)>) {
+async fn h2_conn(net: Network, plan: ConnPlan, obs: Arc<Mutex<ConnObs>>, mode: Option<(IoMode, IoMode)>, tls: bool) {
     let io = match net.raw_connect("http://srv.test", mode) {
         Ok(io) => io,
         Err(_) => {
@@ -194,6 +240,13 @@ async fn h2_conn(net: Network, plan: ConnPlan, obs: Arc<Mutex<ConnObs>>, mode: O
         }
     };
     obs.lock().connected_ms = Some(net.now_ms());
+    let io = match client_io(io, tls).await {
+        Ok(io) => io,
+        Err(_) => {
+            obs.lock().closed_ms = Some(net.now_ms());
+            return;
+        }
+    };
     obs.lock().first_byte_ms = Some(net.now_ms());
     let hs = hyper::client::conn::http2::handshake::<_, _, ChunkBody>(hyperdriver::bridge::rt::TokioExecutor::new(), hyperdriver::bridge::io::TokioIo::new(io)).await;
     let (sender, conn) = match hs {
@@ -260,7 +313,7 @@ async fn h2_conn(net: Network, plan: ConnPlan, obs: Arc<Mutex<ConnObs>>, mode: O
     let _ = driver.await;
 }
 
-async fn silent_conn(net: Network, obs: Arc<Mutex<ConnObs>>) {
+async fn silent_conn(net: Network, obs: Arc<Mutex<ConnObs>>, kind: ConnKind) {
     let mut io = match net.raw_connect("http://srv.test", None) {
         Ok(io) => io,
         Err(_) => {
@@ -269,6 +322,28 @@ async fn silent_conn(net: Network, obs: Arc<Mutex<ConnObs>>) {
         }
     };
     obs.lock().connected_ms = Some(net.now_ms());
+    let mut io: Box<dyn Io> = match kind {
+        ConnKind::TlsStall => {
+            let cfg = crate::tlsfix::client_config(&[]);
+            let name = rustls::pki_types::ServerName::try_from("sim.test").unwrap();
+            let mut conn = rustls::ClientConnection::new(cfg, name).expect("client conn");
+            let mut hello = Vec::new();
+            while conn.wants_write() {
+                conn.write_tls(&mut hello).expect("write_tls");
+            }
+            let _ = io.write_all(&hello[..hello.len() / 2]).await;
+            let _ = io.flush().await;
+            Box::new(io)
+        }
+        ConnKind::SilentAfterTls => match client_io(io, true).await {
+            Ok(io) => io,
+            Err(_) => {
+                obs.lock().closed_ms = Some(net.now_ms());
+                return;
+            }
+        },
+        _ => Box::new(io),
+    };
     let mut b = [0u8; 16];
     loop {
         match io.read(&mut b).await {
@@ -308,7 +383,7 @@ impl Scenario for ShutdownSim {
 
     fn info(&self) -> ScenarioInfo {
         ScenarioInfo {
-            rule: "Server::with_graceful_shutdown over the simulated acceptor, protocols http1 / http2 / auto, 0-4 connections (raw HTTP/1.1 keep-alive clients that send heads in two parts and bodies in delayed chunks, hyper HTTP/2 clients with 1-3 concurrent streams, silent connections), handler delays and delayed response chunks, the signal at a drawn virtual instant in 0..60 ms so that it lands in every stage; two more connects after the signal. Oracle (history relative to the signal instant): serving future Ok(()) at the signal; nothing connected afterwards is served; every request whose handler had started gets its complete correct response; every connection is closed by the server and every connection task finishes within 1 s (5 s with I/O delays) of its last in-flight exchange; idle and still-sniffing connections are closed. Non-trivial: at least one connection open at the signal; distinct = (protocol, multiset of connection stages at the signal).".into(),
+            rule: "Server::with_graceful_shutdown over the simulated acceptor, protocols http1 / http2 / auto, plain or behind the TLS acceptor (a third of the runs; then also clients that stall half-way through the ClientHello or go silent after the TLS handshake), 0-4 connections (raw HTTP/1.1 keep-alive clients that send heads in two parts and bodies in delayed chunks, hyper HTTP/2 clients with 1-3 concurrent streams, silent connections), handler delays and delayed response chunks, the signal at a drawn virtual instant in 0..60 ms so that it lands in every stage; two more connects after the signal. Oracle (history relative to the signal instant): serving future Ok(()) at the signal; nothing connected afterwards is served; every request whose handler had started gets its complete correct response; every connection is closed by the server and every connection task finishes within 1 s (5 s with I/O delays) of its last in-flight exchange; idle and still-sniffing connections are closed. Non-trivial: at least one connection open at the signal; distinct = (protocol, multiset of connection stages at the signal).".into(),
             real: vec![
                 "Server::with_graceful_shutdown, GracefulShutdown::poll, Serving::poll_once, close()/CloseSender/CloseReciever",
                 "GracefulConnectionDriver, Connection::graceful_shutdown for http1 / http2 / auto (UpgradableConnection, ReadVersion::cancel), Connecting",
@@ -326,6 +401,7 @@ impl Scenario for ShutdownSim {
     fn case(&self, _index: u64, seed: u64, _tier: Tier) -> ShutdownCase {
         let mut r = Rng::keyed(seed, "shutdown");
         let proto = *r.pick(&[ServerProto::Auto, ServerProto::H1, ServerProto::H2, ServerProto::Auto]);
+        let tls = r.chance(1, 3);
         let n = r.range(0, 4) as usize;
         let mut id = 1u32;
         let mut conns = vec![];
@@ -335,7 +411,8 @@ impl Scenario for ShutdownSim {
                 ServerProto::H2 => *r.weighted(&[(6, ConnKind::H2), (1, ConnKind::Silent)]),
                 ServerProto::Auto => *r.weighted(&[(3, ConnKind::RawH1), (3, ConnKind::H2), (1, ConnKind::Silent)]),
             };
-            let nreq = if kind == ConnKind::Silent { 0 } else { r.range(1, 3) as usize };
+            let kind = if kind == ConnKind::Silent && tls { *r.pick(&[ConnKind::Silent, ConnKind::TlsStall, ConnKind::SilentAfterTls]) } else { kind };
+            let nreq = if kind.silent() { 0 } else { r.range(1, 3) as usize };
             let mut reqs = vec![];
             for k in 0..nreq {
                 reqs.push(draw_req(&mut r, id, k == 0));
@@ -343,7 +420,7 @@ impl Scenario for ShutdownSim {
             }
             conns.push(ConnPlan { kind, start_ms: r.below(30), reqs });
         }
-        ShutdownCase { seed, proto, conns, signal_at_ms: r.below(60), io_faulty: r.chance(1, 3) }
+        ShutdownCase { seed, proto, conns, signal_at_ms: r.below(60), io_faulty: r.chance(1, 3), tls }
     }
 
     fn execute(&self, case: &ShutdownCase) -> Outcome {
@@ -376,7 +453,8 @@ impl Scenario for ShutdownSim {
                 let t0 = tokio::time::Instant::now();
                 let net_s = net.clone();
                 let server = tokio::task::spawn_local({
-                    let f = run_server(acc, case.proto, None, ctx, exec.clone(), Some(rx));
+                    let tls_cfg = if case.tls { Some(crate::tlsfix::server_config(crate::tlsfix::CertKind::Good, &[])) } else { None };
+                    let f = run_server(acc, case.proto, tls_cfg, ctx, exec.clone(), Some(rx));
                     async move {
                         let r = f.await;
                         (net_s.now_ms(), r.map_err(|e| e.to_string()))
@@ -388,6 +466,7 @@ impl Scenario for ShutdownSim {
                     let o = Arc::new(Mutex::new(ConnObs::default()));
                     obs.push(o.clone());
                     let net = net.clone();
+                    let tls = case.tls;
                     let mode = if case.io_faulty {
                         let mut r = Rng::keyed(case.seed, &format!("shutdown/mode/{}", i));
                         let mut a = IoMode::draw_roomy(&mut r);
@@ -401,9 +480,9 @@ impl Scenario for ShutdownSim {
                     tasks.push(tokio::task::spawn_local(async move {
                         tokio::time::sleep_until(t0 + Duration::from_millis(c.start_ms)).await;
                         match c.kind {
-                            ConnKind::RawH1 => raw_h1_conn(net, c, o, mode).await,
-                            ConnKind::H2 => h2_conn(net, c, o, mode).await,
-                            ConnKind::Silent => silent_conn(net, o).await,
+                            ConnKind::RawH1 => raw_h1_conn(net, c, o, mode, tls).await,
+                            ConnKind::H2 => h2_conn(net, c, o, mode, tls).await,
+                            k => silent_conn(net, o, k).await,
                         }
                     }));
                 }
@@ -416,6 +495,7 @@ impl Scenario for ShutdownSim {
                     let o = Arc::new(Mutex::new(ConnObs::default()));
                     obs.push(o.clone());
                     let net = net.clone();
+                    let tls = case.tls;
                     tasks.push(tokio::task::spawn_local(async move {
                         tokio::time::sleep(Duration::from_millis(delay)).await;
                         let plan = ConnPlan {
@@ -423,7 +503,7 @@ impl Scenario for ShutdownSim {
                             start_ms: 0,
                             reqs: vec![ReqSpec { id: k, gap_ms: 0, head_split: None, body_len: 0, body_chunk: 10, body_delay_ms: 0, handler: HandlerPlan::default() }],
                         };
-                        raw_h1_conn(net, plan, o, None).await;
+                        raw_h1_conn(net, plan, o, None, tls).await;
                     }));
                 }
                 let all = async {
@@ -520,7 +600,7 @@ impl Scenario for ShutdownSim {
                 (Some(c0), _) if c0 > t_s => "not_connected",
                 (_, Some(cl)) if cl < t_s => "closed_before",
                 _ => {
-                    if c.kind == ConnKind::Silent {
+                    if c.kind.silent() {
                         "sniffing_no_bytes"
                     } else {
                         let mut st = "idle_keepalive";
@@ -567,7 +647,7 @@ impl Scenario for ShutdownSim {
             out.violations.push(Violation::new(
                 "C07",
                 "connection_not_closed",
-                json!({"proto": format!("{:?}", case.proto), "kind": format!("{:?}", kind), "stage": stage}),
+                json!({"proto": format!("{:?}", case.proto), "kind": kind.class(), "stage": stage}),
                 format!("connection {} ({:?}, stage {} at the signal) was never closed by the server", ci, kind, stage),
             ));
         }
@@ -575,7 +655,7 @@ impl Scenario for ShutdownSim {
             // a connection that is never closed keeps its task alive: report the leak separately only
             // when it is not explained by those
             let explained = not_closed.len() as u64;
-            let only_pending_h2_handshake = case.proto == ServerProto::H2 && not_closed.iter().all(|(_, k, _)| *k == ConnKind::Silent);
+            let only_pending_h2_handshake = case.proto == ServerProto::H2 && not_closed.iter().all(|(_, k, _)| k.silent());
             out.violations.push(Violation::new(
                 "C07",
                 "connection_task_leaked",
@@ -588,6 +668,19 @@ impl Scenario for ShutdownSim {
         }
         for s in &stages {
             out.count(&format!("probe.signal_while_{}", s));
+        }
+        if case.tls {
+            out.count("probe.tls_acceptor_runs");
+            for (ci, c) in case.conns.iter().enumerate() {
+                let open_at_signal = obs[ci].connected_ms.map(|t| t <= t_s).unwrap_or(false) && obs[ci].closed_ms.map(|t| t >= t_s).unwrap_or(true);
+                if open_at_signal {
+                    match c.kind {
+                        ConnKind::TlsStall => out.count("probe.signal_while_tls_handshake_stalled"),
+                        ConnKind::SilentAfterTls => out.count("probe.signal_while_tls_established_no_bytes"),
+                        _ => {}
+                    }
+                }
+            }
         }
         let mut sig = Digest::default();
         sig.push(case.proto as u64);
